@@ -1,6 +1,5 @@
-(* C11 -- Iteration is complete and truthful.  Index-level theorems (Index.v); the scan-level theorems
-   are in DBProofsIter.v and appended to this file when built. *)
-From Pogreb Require Import Base Flat Index.
+(* C11 -- Iteration is complete and truthful (chain-index instantiation related to an invariant flat state). *)
+From Pogreb Require Import Base Flat Index Spec DB DBInv DBSim DBProofsIter.
 From Coq Require Import Permutation.
 
 (* visiting the buckets in increasing order visits every slot exactly once *)
@@ -15,3 +14,45 @@ Theorem C11_split_moves_forward : forall (p : pindex) (n : N) (s : slot),
   In s (px_bucket (px_dosplit p) n) \/ (n = px_split p /\ In s (px_bucket (px_dosplit p) (nlen (px_chains p)))).
 Proof. exact px_split_slot_forward. Qed.
 Print Assumptions C11_split_moves_forward.
+
+(* a full scan of a database nobody modifies: each live key exactly once with its current value, then
+   done on every further call *)
+Theorem C11_quiescent : forall (P : params) (sp sf : st) (fuel : nat),
+  st_rel sp sf -> Inv P sf -> s_mem sf <> None -> (length (abs (s_disk sf)) < fuel)%nat ->
+  exists (l : list (key * val)) (itf : dbiter),
+    scan chain_ops fuel sp dbiter0 = (l, itf) /\ Permutation l (abs (s_disk sf)) /\ NoDup (map fst l) /\
+    (forall (k : key) (v : val), In (k, v) l <-> sget (abs (s_disk sf)) k = Some v) /\
+    dbiter_step chain_ops sp itf = Some (itf, None) /\
+    (forall n : nat, outs chain_ops (length l + n) sp dbiter0 = map Some l ++ repeat None n) /\
+    db_items chain_ops sp = OItems l.
+Proof. exact C11_quiescent_scan. Qed.
+Print Assumptions C11_quiescent.
+
+(* a scan interleaved with ANY writer steps (Put, Delete, compaction pick and micro-steps, Sync) between
+   its Next calls (cscan): every pair returned was the key's value in the state of a Next call made
+   no later than the call returning it ... *)
+Theorem C11_returned_pairs_are_truthful : forall P : params, params_ok P ->
+  forall (sp sf : st) (c : cursor) (it : dbiter) (ret : list (key * val)) (h hn : list st) (ws : list wlabel)
+         (it' : dbiter) (k : key) (v : val),
+  cscan P sp sf c it ret h hn ws ->
+  dbiter_step chain_ops sp it = Some (it', Some (k, v)) ->
+  exists sf_t : st, In sf_t (hn ++ sf :: nil) /\ sget (abs (s_disk sf_t)) k = Some v.
+Proof. exact C11_truthful_at_return. Qed.
+Print Assumptions C11_returned_pairs_are_truthful.
+
+(* ... and every key that no Put / Delete of the run names, live when the scan reports done, was returned
+   (index splits that move keys during the scan included) *)
+Theorem C11_untouched_keys_are_returned : forall P : params, params_ok P ->
+  forall (sp sf : st) (c : cursor) (it : dbiter) (ret : list (key * val)) (h hn : list st) (ws : list wlabel)
+         (it' : dbiter) (k : key) (v : val),
+  cscan P sp sf c it ret h hn ws ->
+  dbiter_step chain_ops sp it = Some (it', None) ->
+  sget (abs (s_disk sf)) k = Some v ->
+  (forall lab : wlabel, In lab ws -> ~ wl_touches lab k) -> In (k, v) ret.
+Proof. exact C11_complete_untouched. Qed.
+Print Assumptions C11_untouched_keys_are_returned.
+
+(* sensitivity: bounding the scan by the bucket count at creation misses a key moved by a split;
+   and "at least once" cannot be "exactly once" under concurrency (a split can move a returned key) *)
+Definition C11_frozen_bound_refuted := FrozenEx.frozen_bound_refuted.
+Definition C11_duplicates_possible := DupEx.concurrent_duplicate_example.
